@@ -70,11 +70,18 @@ func drawVoucher(rt *rapid.T, signer *kp, label string) *circuitproto.Reservatio
 // drawSealed seals one record; with prev != nil it is related to prev (same key,
 // same domain, same type or same payload) so that splices are near misses.
 func drawSealed(rt *rapid.T, prev *sealed, label string) *sealed {
-	var k *kp
-	if prev != nil && rapid.Bool().Draw(rt, label+"-samekey") {
+	return drawSealedBy(rt, prev, label, nil)
+}
+
+// drawSealedBy: as drawSealed; k != nil fixes the signing key. Otherwise the signer is
+// drawn from every key class (curves, RSA sizes up to the documented maximum).
+func drawSealedBy(rt *rapid.T, prev *sealed, label string, k *kp) *sealed {
+	switch {
+	case k != nil:
+	case prev != nil && rapid.Bool().Draw(rt, label+"-samekey"):
 		k = prev.key
-	} else {
-		k = drawKey(rt, label+"-key")
+	default:
+		k = drawKeyOpt(rt, label+"-key", mixEnvelope)
 	}
 	var rec record.Record
 	kind := rapid.SampledFrom([]string{"hrec", "hrec", "hrec", "hrec", "hrec", "peerrec", "peerrec", "peerrec", "voucher", "voucher"}).Draw(rt, label+"-kind")
@@ -554,7 +561,7 @@ func TestEnvelopeMutation(t *testing.T) {
 				labels = append(labels, "plus-foreign-domain")
 			}
 			for _, s := range set {
-				labels = append(labels, "kind:"+s.kind, "key:"+s.key.typ)
+				labels = append(labels, "kind:"+s.kind, "key:"+s.key.typ, classLabel(s.key.cls))
 			}
 			for _, r := range j.accepted {
 				labels = append(labels, "accepted-by:"+r)
@@ -745,7 +752,7 @@ func TestEnvelopeCollisions(t *testing.T) {
 		if rapid.Bool().Draw(rt, "mirror") {
 			a, b = b, a
 		}
-		k := drawKey(rt, "k")
+		k := drawKeyOpt(rt, "k", mixEnvelope)
 		s, err := sealRecord(&hrec{domain: a.d, codec: a.t, payload: a.p}, k, "hrec")
 		if err != nil {
 			rt.Fatalf("Seal: %v", err)
@@ -766,7 +773,7 @@ func TestEnvelopeCollisions(t *testing.T) {
 		if j := judgeEnvelope(set, s.raw, b.d, nil, false); j.fail != "" && a.d != b.d {
 			rt.Fatalf("collision class %s: genuine envelope asked under foreign domain %q: %s", kind, b.d, j.fail)
 		}
-		stats.Case(name, fp(kind, a.d, a.t, a.p, b.d, b.t, b.p, k.tag), true, "weak:"+kind, "key:"+k.typ)
+		stats.Case(name, fp(kind, a.d, a.t, a.p, b.d, b.t, b.p, k.tag), true, "weak:"+kind, "key:"+k.typ, classLabel(k.cls))
 		if stats.WantSample(name) {
 			stats.Sample(name, map[string]any{"class": kind, "sealed": fmt.Sprintf("%q %x %x", a.d, a.t, a.p), "claimed": fmt.Sprintf("%q %x %x", b.d, b.t, b.p), "key": k.tag})
 		}
@@ -781,7 +788,7 @@ func TestEnvelopeEveryPosition(t *testing.T) {
 	peer.AdvancedEnableInlining = true
 	idx := 0
 	for ti, typ := range sweepTypes(hx.Pick(1, 2)) {
-		k := freshKey(typ, uint64(9000+ti))
+		k := freshKeyClass(sweepClass(typ, ti/len(keyTypes)), uint64(9000+ti))
 		other := freshKey(typ, uint64(9100+ti))
 		recs := []struct {
 			kind string
